@@ -199,6 +199,7 @@ func checkC07(c *Ctx, r *Report) {
 	r.rule("C07.T1", "writer layout: header 32 (4,2,2,8,4,8,4), footer 16 (4,8,4), index header 16 (4,2,4,4,2), index entry 12 (8,4) as written by buildHeader/buildFooter/BuildBytes", 3)
 	r.rule("C07.T2", "reader agreement: length constants and magic strings in pkg/storage and both decoders equal the writer layout; read sequences of parseSegmentFooter/parseIndexMetadata/iceberg parseIndex equal the write sequences", 12)
 	r.rule("C07.T3", "every constant header slice handed to BigEndian.UintN/PutUintN is a field of the record-batch v2 table (or of the index layout) with matching width", 25)
+	r.rule("C07.T7", "every zigzag decode (v>>1 ^ mask) builds its mask by negation or an arithmetic shift of a signed value (sibling agreement of the varint readers)", 3)
 	r.rule("C07.T4", "the value added to the base timestamp in each decodeRecord/scanRecord comes from a varint reader with 64-bit accumulation and is not widened from 32 bits", 2)
 	r.rule("C07.T5", "in BuildSegment the index position is computed from body.Len() before body.Write of the same batch", 1)
 	r.rule("C07.T6", "in BuildSegment the checksummed bytes are the bytes written between header and footer (Castagnoli table); footer last offset and artifact LastOffset are the same value", 3)
@@ -468,6 +469,76 @@ func checkC07(c *Ctx, r *Report) {
 				r.viol("C07.T4", key, m.Pos(st.Pos()), bad)
 			}
 		}
+	}
+
+	// ---- T7: zigzag decoders (siblings: storage readVarint, SQL readVarint/readVarint32)
+	// v>>1 XOR mask — the mask must be all-ones for odd v: a negation of (v&1), or an *arithmetic*
+	// right shift of a signed value; a logical shift of an unsigned value yields 0/1 and silently
+	// turns every negative delta into a small positive one.
+	nZig := 0
+	for _, mp := range []struct{ mod, pkg string }{{"root", pkgStorage}, {"sql", pkgSQLDecoder}, {"iceberg", pkgIcebergDecoder}} {
+		m := mods[mp.mod]
+		if m == nil {
+			continue
+		}
+		for _, fn := range m.FuncsInPkg(mp.pkg) {
+			for _, b := range fn.Blocks {
+				for _, in := range b.Instrs {
+					x, ok := in.(*ssa.BinOp)
+					if !ok || x.Op != token.XOR {
+						continue
+					}
+					isHalf := func(v ssa.Value) bool {
+						sh, ok := strip(v).(*ssa.BinOp)
+						if !ok || sh.Op != token.SHR {
+							return false
+						}
+						k, ok := constInt(sh.Y)
+						return ok && k == 1
+					}
+					var mask ssa.Value
+					switch {
+					case isHalf(x.X):
+						mask = x.Y
+					case isHalf(x.Y):
+						mask = x.X
+					default:
+						continue
+					}
+					nZig++
+					r.fn(fn)
+					key := "zigzag sign mask in " + funcName(fn)
+					okMask, why := false, "mask is "+describe(mask)
+					switch mv := strip(mask).(type) {
+					case *ssa.UnOp:
+						if mv.Op == token.SUB {
+							okMask = true
+						}
+					case *ssa.BinOp:
+						switch mv.Op {
+						case token.SUB:
+							if k, ok := constInt(mv.X); ok && k == 0 {
+								okMask = true
+							}
+						case token.SHR:
+							if bt, ok := mv.X.Type().Underlying().(*types.Basic); ok && bt.Info()&types.IsUnsigned == 0 {
+								okMask = true
+							} else {
+								why = "the sign mask is a logical (unsigned) right shift: it is 0 or 1, never all ones, so negative varints decode as positive"
+							}
+						}
+					}
+					if okMask {
+						r.ok("C07.T7", key, m.Pos(x.Pos()), "")
+					} else {
+						r.viol("C07.T7", key, m.Pos(x.Pos()), why)
+					}
+				}
+			}
+		}
+	}
+	if nZig == 0 {
+		r.unresolved("C07.T7", "zigzag decoders", "none found")
 	}
 
 	// ---- T5 / T6
